@@ -471,7 +471,11 @@ def numeric_strings(d, rng):
            "١٢", "5\u00a0".encode().decode("unicode_escape"), "99999999999999999999999999999999999999999", "-99999999999999999999999999999999999999999",
            "340282366920938463463374607431768211455", "340282366920938463463374607431768211456",
            "-170141183460469231731687303715884105728", "-170141183460469231731687303715884105729", "3.4028235e38", "3.4028236e38",
-           "1.7976931348623157e308", "1.7976931348623159e308", "4.9e-324", "2e-324", "7", "7.0", "100", "101", "-0.0"]
+           "1.7976931348623157e308", "1.7976931348623159e308", "4.9e-324", "2e-324", "7", "7.0", "100", "101", "-0.0",
+           # a hair away from an f32 midpoint: parsing through f64 and narrowing rounds twice
+           "16777217.0000000001", "16777216.9999999999", "1.0000000596046448", "1.00000005960464478", "7.038531e-26",
+           "0.10000000149011612", "33554434.0000000001", "-16777217.0000000001", "1.00000017881393421514957253748434595763683319091796875",
+           "9007199254740993", "9007199254740992.9999"]
     if d.inner in INT_TYPES:
         lo, hi = ity_min(d.inner), ity_max(d.inner)
         for b in list(getattr(d, "bounds", [])) + [lo, hi, 0]:
@@ -788,6 +792,7 @@ def c12(tier, rng, rep, only=None):
         g.add_ops(d, ops)
     g = make_guard_run(tier, rng, decls=decls, ops_for=ops_for, spec=False)
     run_guard(g, rep, rng)
+    profile_crosscheck(g, rep)
     # the gate itself: Eq / Ord on a float newtype is refused unless `finite` is declared
     n_gate = 0
     if only is None:
@@ -1114,6 +1119,12 @@ def c11(tier, rng, rep, only=None):
                     ops.append(("from", a))
                 if "FromStr" in info.traits and d.inner == "String":
                     ops.append(("from_str_s", a))
+                if d.inner == "String" and "TryFrom" in info.traits:
+                    ops.append(("try_from_ref", a))
+                if d.inner == "String" and "From" in info.traits:
+                    ops.append(("from_ref", a))
+        if "Default" in info.traits and getattr(d, "default_arg", None) is not None:
+            ops.append(("default", ""))
         g.add_ops(d, ops)
     g = make_guard_run(tier, rng, decls=decls, ops_for=ops_for, spec=False)
     run_guard(g, rep, rng)
@@ -1253,7 +1264,10 @@ def c04(tier, rng, rep, only=None):
         for bs in ([0xc0], [0xc3], [0x05], [0x7f], [0xcc, 200], [0xd0, 0xfb], [0xcd, 0x01, 0x00], [0xca, 0x3f, 0xc0, 0, 0],
                    [0xcb, 0x40, 0x1c, 0, 0, 0, 0, 0, 0], [0xcb, 0x7f, 0xf8, 0, 0, 0, 0, 0, 0], [0xa2, 0x61, 0x42], [0xa0], [0xa1, 0x20],
                    [0x92, 1, 2], [0x90], [0x93, 3, 0xff, 2], [0xcf, 0xff, 0xff, 0xff, 0xff, 0xff, 0xff, 0xff, 0xff], [0xd3, 0x80, 0, 0, 0, 0, 0, 0, 0],
-                   [0xcd], [], [0xa3, 0x61], [0x07], [0x64], [0x65], [0xca, 0x7f, 0x80, 0, 0]):
+                   [0xcd], [], [0xa3, 0x61], [0x07], [0x64], [0x65], [0xca, 0x7f, 0x80, 0, 0],
+                   # bin8 / bin16 / bin32: serde's String also accepts UTF-8 bytes
+                   [0xc4, 2, 0x61, 0x42], [0xc4, 0], [0xc4, 1, 0x20], [0xc4, 3, 0x20, 0x61, 0x20], [0xc4, 2, 0xc3, 0x9f], [0xc4, 2, 0xff, 0xfe],
+                   [0xc5, 0, 2, 0x61, 0x62], [0xc6, 0, 0, 0, 1, 0x78], [0xc4, 5, 0x61, 0x62, 0x63, 0x64, 0x65]):
             ops.append(("de_mp", "(b%s)" % "".join(" %d" % b for b in bs)))
         # nested positions
         some = [x for x in docs if x.strip()][:: max(1, len(docs) // 12)][:12]
@@ -1322,7 +1336,12 @@ def c10(tier, rng, rep, only=None):
         vals = guardcorpus.inputs_for(d, r, tier)
         if len(vals) > 60:
             vals = vals[:: max(1, len(vals) // 60)]
-        g.add_ops(d, [("ser", val_sexp(v)) for v in vals])
+        info = runner.DeclInfo(d)
+        ops = [("ser", val_sexp(v)) for v in vals]
+        if "TryFrom" in info.traits or "From" in info.traits:
+            # the value to serialize may also have been obtained through the derived conversion
+            ops += [("ser_conv", val_sexp(v)) for v in vals[::2]]
+        g.add_ops(d, ops)
     g = make_guard_run(tier, rng, decls=decls, ops_for=ops_for, spec=False, wsname="serde")
     run_guard(g, rep, rng)
     n = 0
@@ -1551,12 +1570,14 @@ def c02(tier, rng, rep, only=None):
             g.add_ops(d, [("try_new", val_sexp(v)) for v in probes(d)], spec=True)
         elif "presence" in d.tags:
             g.add_ops(d, [("try_new", val_sexp(v)) for _, v in d.witnesses], spec=True)
+        elif "sanorder" in d.tags:
+            g.add_ops(d, [("new", val_sexp(("s", s_))) for s_, _ in d.expected], spec=True)
         elif "layout" in d.tags:
             info = runner.DeclInfo(d)
             g.add_ops(d, [("try_new", val_sexp(v)) for v in layout_inputs[d.inner]] + ([("default", "")] if info.has_default else []), spec=False)
     g = make_guard_run(tier, rng, decls=decls, ops_for=ops_for, spec=True, wsname="c02")
     dropped = run_guard(g, rep, rng)
-    n = n_sp = n_lay = n_pres = 0
+    n = n_sp = n_lay = n_pres = n_ord = 0
     for d in g.decls:
         mv = g.model_verdict.get(d.id, "")
         if (d.id in dropped) != mv.startswith("reject"):
@@ -1607,6 +1628,18 @@ def c02(tier, rng, rep, only=None):
                 elif c.impl != c.model:
                     rep.violation("model and implementation differ on %s try_new(%s): %s vs %s" % (d.id, c.arg, c.impl, c.model),
                                   case_payload(c, g), no_input=True)
+        elif "sanorder" in d.tags:
+            for c, (s_, want) in zip(cs, d.expected):
+                n += 1
+                n_ord += 1
+                if c.impl is None:
+                    continue
+                if c.impl != "ok " + val_sexp(("s", want)):
+                    rep.violation("sanitizers of %s do not run in the written order: new(%r) stores %s, the written pipeline gives %r"
+                                  % (d.id, s_, c.impl, want), case_payload(c, g, {"expected": want}))
+                elif c.impl != c.model:
+                    rep.violation("model and implementation differ on %s new(%s): %s vs %s" % (d.id, c.arg, c.impl, c.model),
+                                  case_payload(c, g), no_input=True)
         elif "layout" in d.tags:
             fams.setdefault(d.family_id, []).append(d)
             for c in cs:
@@ -1626,8 +1659,8 @@ def c02(tier, rng, rep, only=None):
                 rep.violation("the same rules written in a different layout behave differently: %s(%s) gives %s in %s but %s in %s"
                               % (c.op, c.arg, c.impl, d.id, ref_out[k_], ref_d.id), case_payload(c, g, {"other_layout": ref_d.to_json()}))
     rep.coverage.update({"evaluations": n, "distinct_nontrivial": n_sp,
-                         "rule": "(1) single-rule declarations for every bound spelling (signed / underscored literals, constants, negated constants, parenthesised, arithmetic, shifts, bit-or, T::MIN/MAX, calls, integer literal for a float bound, exponent floats, associated float constants) x every bound kind x several inner types: the real try_new at the denoted bound and its neighbours is compared with the verdict computed from the INTENDED value and kind (independent of the model) and with the model; (2) layout families: one rule set in every attribute order, with / without trailing commas, closures vs paths, regex literal vs static path: all members must behave identically; (3) presence: declarations with two or three rules (finite / lower / upper in every order, literal and constant spellings; not_empty / len_char_min / len_char_max / regex) and for every written rule a witness input that violates it: the constructor must refuse each witness",
-                         "presence_probes": n_pres, "spelling_probes": n_sp, "layout_probes": n_lay, "layout_families": len(fams), "declarations": len(g.decls), "exhaustive": False})
+                         "rule": "(1) single-rule declarations for every bound spelling (signed / underscored literals, constants, negated constants, parenthesised, arithmetic, shifts, bit-or, T::MIN/MAX, calls, integer literal for a float bound, exponent floats, associated float constants) x every bound kind x several inner types: the real try_new at the denoted bound and its neighbours is compared with the verdict computed from the INTENDED value and kind (independent of the model) and with the model; (2) layout families: one rule set in every attribute order, with / without trailing commas, closures vs paths, regex literal vs static path: all members must behave identically; (3) presence: declarations with two or three rules (finite / lower / upper in every order, literal and constant spellings; not_empty / len_char_min / len_char_max / regex) and for every written rule a witness input that violates it: the constructor must refuse each witness (multi-byte witnesses for the length rules); (4) sanitizer order: chains mixing built-in and custom sanitizers in many orders, the stored value compared with the written pipeline evaluated here on ASCII inputs",
+                         "presence_probes": n_pres, "sanitizer_order_probes": n_ord, "spelling_probes": n_sp, "layout_probes": n_lay, "layout_families": len(fams), "declarations": len(g.decls), "exhaustive": False})
     for c in g.cases[:: max(1, len(g.cases) // 6 or 1)][:6]:
         rep.samples.append({"decl": c.decl.id, "rule": getattr(c.decl, "rule", None), "op": c.op, "arg": c.arg, "impl": c.impl})
     if n_sp == 0 and only is None:
